@@ -193,6 +193,9 @@ class IMinuitMinimizerImpl(
         """
         if func_args is None:
             func_args = tuple()
+        # A non-tuple sequence of arguments would be taken as one single
+        # argument.
+        func_args = tuple(func_args)
         if kwargs is None:
             kwargs = dict()
 
